@@ -314,6 +314,13 @@ PROPS["C42"] = drive_plan("exploration", "c42", ["--histories", 5], ["--historie
     "payload-reusing updates are applied to un-chunked documents only (for chunked ones the content is already lost before the vacuum: known C07 finding)"])
 
 
+PROPS["C41"] = drive_plan("exploration", "c41", ["--histories", 5], ["--histories", 120], assumptions=[
+    "schedules are sampled, not enumerated: pseudo-random sleeps/yields before each of the worker's lock acquisitions (cfg hook) and between foreground steps; the interleavings actually observed are counted from the merged event log",
+    "the foreground never deletes or updates a queued document, so every queued frame stays active and any failed worker task is a finding",
+    "'the worker stops when asked' is judged as: stop_and_wait returns within 30 s; 'every queued frame ends Enriched' as: within 30 s without progress after the foreground stopped (240 s watchdog => inconclusive)",
+    "the handle is shared through the one Mutex the worker API prescribes; there is no unsynchronised shared state in memvid's own code for a race detector to look at"])
+
+
 def _c29_run(pid, tier, seed, scratch):
     bindir = main_bins()
     mvdrive = os.path.join(bindir, "mvdrive")
@@ -351,6 +358,11 @@ import crashchecks2  # noqa: E402
 PROPS["C02"] = {"level": "fault_enumeration", "run": crashchecks.c02, "design": "C02"}
 PROPS["C03"] = {"level": "fault_enumeration", "run": crashchecks2.c03, "design": "C03"}
 PROPS["C04"] = {"level": "fault_enumeration", "run": crashchecks2.c04, "design": "C04"}
+
+
+import detcheck  # noqa: E402
+
+PROPS["C23"] = {"level": "exploration", "run": detcheck.c23, "design": "C23"}
 
 
 def _c19_sidecar(pid, tier, seed, scratch, bindir):
@@ -391,6 +403,14 @@ def replay(pid, spec, path, scratch, t0):
         if key:
             print(f"VIOLATION property={pid} replay={path}")
             print(f"  key={key}")
+            return 1
+        print(f"[{pid}] replay: not reproduced")
+        return 0
+    elif mode == "c23":
+        keys = detcheck.replay(detail, scratch)
+        if rec.get("key") in keys:
+            print(f"VIOLATION property={pid} replay={path}")
+            print(f"  key={rec.get('key')}")
             return 1
         print(f"[{pid}] replay: not reproduced")
         return 0
